@@ -15,6 +15,34 @@ import gc
 import operator
 import pickle
 
+
+def die_with_parent():
+    """PR_SET_PDEATHSIG(SIGKILL): a server, client or pool worker never
+    outlives the process that forked it, even if the harness is SIGKILLed."""
+    try:
+        import ctypes
+        import signal
+        ctypes.CDLL(None).prctl(1, int(signal.SIGKILL), 0, 0, 0)
+    except Exception:
+        pass
+
+
+def orphan_watch():
+    """Pool-worker initializer: exit when the forking process is gone.  (The
+    death signal cannot be used: it fires when the forking *thread* ends, and
+    the manager's server creates pools from short-lived request threads.)"""
+    import os
+    import threading
+    import time
+    ppid = os.getppid()
+
+    def watch():
+        while os.getppid() == ppid:
+            time.sleep(1.0)
+        os._exit(1)
+    threading.Thread(target=watch, daemon=True).start()
+
+
 _VIEWS = tuple(type(getattr({}, n)()) for n in ('keys', 'values', 'items'))
 _SCALARS = (bool, int, float, str, bytes, type(None))
 
@@ -81,10 +109,6 @@ def _setitem(obj, k, v):
 
 def _delitem(obj, k):
     del obj[k]
-
-
-def _next_n(it, n):
-    return [outcome(next, it) for _ in range(n)]
 
 
 def surface(obj, call):
@@ -180,6 +204,7 @@ def hist_child(conn, state):
     object (inherited copy): this child keeps copies of the *main* client's
     proxies and releases every other inherited proxy, so that the model knows
     exactly what it holds; then it serves commands until 'exit'."""
+    die_with_parent()
     slots = list(state.tables[0])
     for t in state.tables:
         del t[:]
@@ -250,6 +275,7 @@ def conc_script(px, cid, m, kinds, lockstyle):
 
 
 def conc_child(conn, px, cid, m, kinds, lockstyle):
+    die_with_parent()
     conn.send('ready')
     conn.recv()                           # 'go'
     obs = conc_script(px, cid, m, kinds, lockstyle)
